@@ -140,6 +140,18 @@ func (env *SpecEnv) typeOfExpr(x ast.Expr) types.Type {
 					}
 				}
 			}
+			// a library package imported by the package of the contract (e.g. time.Duration)
+			if env.pkg != nil {
+				for _, imp := range env.pkg.Imports() {
+					if imp.Name() == id.Name {
+						if o := imp.Scope().Lookup(n.Sel.Name); o != nil {
+							if tn, ok := o.(*types.TypeName); ok {
+								return tn.Type()
+							}
+						}
+					}
+				}
+			}
 		}
 	case *ast.Ident:
 		if o := types.Universe.Lookup(n.Name); o != nil {
@@ -720,6 +732,15 @@ func (env *SpecEnv) callExpr(n *ast.CallExpr) Val {
 					out.L = append(out.L, c.sel(cur, v.L[0]))
 				}
 				return out
+			case "lockheld":
+				// lockheld(m): the ghost flag of the mutex m (a package-level variable)
+				a, _, ok := env.location(n.Args[0])
+				if !ok || a.Kind != RGlobal {
+					env.fail("lockheld: argument must be a package-level mutex")
+				}
+				fp, _ := pathKey(a.Typ, a.Path)
+				key := "g:$lock." + strings.TrimPrefix(a.Key, "g:") + fp
+				return scalar(boolT, c.cell(env.cells, key, sortBool))
 			case "isnil":
 				v := env.eval(n.Args[0])
 				return scalar(boolT, e.ptrEq(v, scalar(types.Typ[types.UntypedNil], tNil)))
